@@ -131,13 +131,13 @@ CHECKS = {
     ),
     'C15': dict(
         level='exploration',
-        units=[U('^TestC15_Stores$', (7, 2500), (8, 25000)), U('^TestC15_Sketch$', (7, 2000), (8, 20000))],
+        units=[U('^TestC15_Stores$', (7, 2500), (8, 25000)), U('^TestC15_Sketch$', (7, 2000), (8, 20000)), U('^TestC15_ManyPages$', (2, 400), (3, 8000))],
         essential_labels=['level:store', 'level:sketch', 'kind:dense', 'kind:sparse', 'kind:paginated', 'kind:collow', 'kind:colhigh', 'collapsed-before-clear', 'pages-before-clear', 'h2-shifted-range', 'repeated-cycles', 'cleared-sketch-as-decode-target', 'variant:exact', 'preclear:weights-underflow-to-zero', 'preclear:infinite-weight'],
         assumptions=COMMON_ASSUMPTIONS + ["encoded bytes of cleared vs fresh objects are not compared (the paginated store legitimately keeps its compaction threshold); decoded content is"],
     ),
     'C16': dict(
         level='exploration',
-        units=[U('^TestC16_Stores$', (7, 2500), (8, 25000)), U('^TestC16_Sketch$', (7, 2000), (8, 20000)), U('^TestC16_ArbitraryFactor$', (2, 15000), (4, 300000))],
+        units=[U('^TestC16_Stores$', (7, 2500), (8, 25000)), U('^TestC16_Sketch$', (7, 2000), (8, 20000)), U('^TestC16_ArbitraryFactor$', (2, 15000), (4, 300000)), U('^TestC16_OverflowingTotal$', (1, 3000), (2, 100000))],
         essential_labels=['level:store', 'level:sketch', 'kind:dense', 'kind:sparse', 'kind:paginated', 'kind:collow', 'kind:colhigh', 'w<1', 'w>1', 'w=1', 'paginated-buffer-and-pages-at-reweight', 'collapsed-at-reweight', 'both-sides', 'zero-bucket', 'variant:exact', 'arbitrary-factor', 'factor-in-(1,1.2)'],
         assumptions=COMMON_ASSUMPTIONS + ["bit-for-bit comparisons use dyadic factors only (w in {2^k, 3, 1.5, 0.75, 5}) so that scaled weights stay exact; arbitrary factors and weights are judged bin by bin within 4 ulps per contribution/factor (TestC16_ArbitraryFactor)"],
     ),
